@@ -33,6 +33,9 @@ def alterations():
     out += [{"name": f"type{t:x}_len{n}", "hs": {"type": t, "len": n}} for t in (0x3, 0x6) for n in (0, 30, 46, 62, 78)]
     out += [{"name": "wrong_key", "hs": {"wrong_key": True}}, {"name": "error", "hs": {"error": True}},
             {"name": "silence", "hs": {"drop": True}}]
+    for lat in (0.001, 0.5, 1.9):
+        out.append({"name": f"reset_instead_of_reply_{lat}", "hs": {"drop": True, "close": True, "rst": True, "lat": lat}})
+        out.append({"name": f"fin_instead_of_reply_{lat}", "hs": {"drop": True, "close": True, "lat": lat}})
     out += [{"name": f"hdrflip{b}", "hs": {"hdr_flip": b}, "containment_only": True} for b in range(64)]
     out += [{"name": f"padnibble{n}", "hs": {"pad_nibble": n}, "containment_only": True} for n in (1, 7, 15)]
     # an incomplete packet first (announcing more / fewer bytes than a reply), then - after the retry - a genuine reply:
